@@ -375,8 +375,13 @@ impl Engine for C01 {
                             // command must report that, not die of it)
                             stdout_to: if k == "cli-proc-stdin" && scn.entropy % 3 == 1 { full_device(env) } else { None },
                             stdin_file: None,
+                            // (and a fifth of the runs cannot write their diagnostics)
+                            stderr_to: if scn.entropy % 5 == 2 { full_device(env) } else { None },
                         },
                     );
+                    if scn.entropy % 5 == 2 {
+                        res.stats.fault("fs.stderr-dev-full");
+                    }
                     if k == "cli-proc-stdin" && scn.entropy % 3 == 1 {
                         res.stats.fault("fs.stdout-dev-full");
                     }
@@ -427,7 +432,7 @@ impl Engine for C01 {
                             Some(c) if c != 0 && c != 101 => {
                                 res.stats.outcome("err");
                                 classes.push("err".into());
-                                if stderr.trim().is_empty() {
+                                if stderr.trim().is_empty() && scn.entropy % 5 != 2 {
                                     res.violation(
                                         "totality/silent-failure",
                                         "c01:child-silent-failure",
